@@ -16,5 +16,6 @@ CONSTANTS
   ProbeNos <- SimProbeNos
   KeepRmaxVariant = FALSE
   Depth = 30
+  Focus = "log"
 INVARIANT Emit
 CHECK_DEADLOCK FALSE
